@@ -564,6 +564,13 @@ impl World {
                         "two entries of the master key share a scalar".to_string(),
                     ));
                 }
+                if s.hybrid && !seen.insert(s.dk.clone()) {
+                    problems.push((
+                        "C16",
+                        format!("msk-duplicate-secret:{what}"),
+                        "two entries of the master key share an ML-KEM decapsulation key".to_string(),
+                    ));
+                }
             }
         }
         self.stats.bump("msk_wire_checks");
